@@ -291,6 +291,10 @@ def harness(h):
             h.note('accepted-layouts-compared')
         elif e == 'normalise':
             c.same_results(lambda X: utils.amplitude_normalise(X), [(col,)])
+            r3 = c.run(lambda X: utils.amplitude_normalise(X), col3)      # second-layer layout (n, 1, 1)
+            r2 = c.run(lambda X: utils.amplitude_normalise(X), col)
+            if r3[0] != r2[0] or (r3[0] == 'ok' and not equal(h, np.asarray(r3[1]).ravel(), np.asarray(r2[1]).ravel())):
+                c.bad('layouts-give-identical-results', 'amplitude_normalise (n,1) vs (n,1,1)')
         elif e == 'wrap':
             c.same_results(lambda X: utils.wrap_phase(X), [(x,)])
             r1, r2 = c.run(utils.wrap_phase, x), c.run(utils.wrap_phase, col)
